@@ -41,6 +41,7 @@ class SurfaceSubdivision(Logger):
         self.mesh = mesh
 
     def __enter__(self):
+        self._input_mesh = self.mesh
         self.mesh = RawMeshData(self.mesh)
         self.mesh.face_corners.clear()
         return self
@@ -48,6 +49,13 @@ class SurfaceSubdivision(Logger):
     def __exit__(self, exc_type, exc_val, exc_tb):
         self.mesh.prepare()
         self.mesh = _instanciate_raw_mesh_data(self.mesh, 2)
+        # the block edits in place: the mesh that was given becomes the refined mesh, with its connectivity reset
+        edited = self._input_mesh
+        edited.vertices, edited.edges = self.mesh.vertices, self.mesh.edges
+        edited.faces, edited.face_corners = self.mesh.faces, self.mesh.face_corners
+        edited.connectivity.clear()
+        edited.clear_boundary_data()
+        edited._is_triangular, edited._is_quad = None, None
 
     @allowed_mesh_types(SurfaceMesh)
     def triangulate_face(self, face_id: int) :
@@ -241,6 +249,7 @@ class VolumeSubdivision(Logger):
         self.conn = None # connectivity
 
     def __enter__(self):
+        self._input_mesh = self.mesh
         self.conn = self.mesh.connectivity
         self.conn._compute_cell_adj()
         self.mesh = RawMeshData(self.mesh)
@@ -252,6 +261,16 @@ class VolumeSubdivision(Logger):
     def __exit__(self, exc_type, exc_value, tb):
         self.mesh.prepare()
         self.mesh = _instanciate_raw_mesh_data(self.mesh, 3)
+        # the block edits in place: the mesh that was given becomes the refined mesh, with its connectivity reset
+        edited = self._input_mesh
+        edited.vertices, edited.edges = self.mesh.vertices, self.mesh.edges
+        edited.faces, edited.face_corners = self.mesh.faces, self.mesh.face_corners
+        edited.cells, edited.cell_corners, edited.cell_faces = self.mesh.cells, self.mesh.cell_corners, self.mesh.cell_faces
+        edited.connectivity.clear()
+        edited._boundary_faces = edited._interior_faces = None
+        edited._is_vertex_on_border = edited._boundary_vertices = edited._interior_vertices = None
+        edited._is_edge_on_border = edited._boundary_edges = edited._interior_edges = None
+        edited.boundary_connectivity = None
 
     def split_cell_as_fan(self, cell_id:int):
         """
